@@ -513,6 +513,8 @@ def main(argv):
         log('[%s] %-44s %-12s %6.1fs %5dMB  obligations %s/%s  witnesses %s  xlat-validation %s (%s/%s agree, %s complete runs)' % (
             pid, h.fn, r['verdict'], r.get('wall_s', 0), r.get('rss_mb', 0), r.get('discharged', '-'), r.get('obligations', '-'),
             ','.join('%s' % k.replace('WITNESS:', '') for k in r.get('witnesses', {})) or '-', v.get('status'), v.get('agree'), v.get('runs'), v.get('nontrivial')))
+        if v.get('status') == 'INCOMPLETE' and (v.get('real_completed', 0) == 0 or v.get('xlat_completed', 0) == 0):
+            broken.append('%s: translator validation could not run (native twin produced no run: %s %s)' % (h.fn, v.get('real_err', '')[-200:], v.get('xlat_err', '')[-200:]))
         if v.get('status') in ('MISMATCH', 'ERROR'):
             broken.append('%s: translator validation %s: %s' % (h.fn, v.get('status'), json.dumps(v.get('mismatches') or v.get('error'))[:600]))
         if r['verdict'] == 'INCONCLUSIVE':
